@@ -1,9 +1,13 @@
 import Norad.Base.Proto
 import Norad.Model.Kerning
 import Driver.C15
+import Norad.Model.Plist
 /-!
 Driver module for C10.
 `C10 det <fmt> <G> <K> <L> <F> <O> <B> <X> => ok d=<#dumps> t=<#trees> sorted=<0|1> <G'> <K'> T:<hex> | err d=<n>`
+`… <X> <E>`: `<E>` = `E:key=content,…` data-store inserts applied to every loaded font before saving.
+`C10 lib <V1> <V2> => eq=<0|1> same=<0|1> lg=<0|1> W1:<V> W2:<V>`: two fonts built through the API whose
+libs are V1 / V2 (`<V>` = `i<int>` | `s<hex>` | `d(<hexkey>=<V>,..)` | `a(<V>,..)`).
 The model predicts the single outcome (groups, kerning, features text); the specification demands that
 the implementation produced exactly one dump and one saved tree over all loads / processes, and that
 the written dictionaries are sorted.
@@ -37,9 +41,108 @@ def parseBlocks (tok : String) : Option (Option (List (Str × Str))) :=
 def field (pre : String) (toks : List String) : Option String :=
   (toks.find? (·.startsWith pre)).map (fun t => (t.drop pre.length).toString)
 
+
+open PlistM in
+mutual
+partial def parseVal : List Char → Option (PV × List Char)
+  | 'i' :: cs =>
+    let ds := cs.takeWhile (fun c => c == '-' || c.isDigit)
+    (String.ofList ds).toInt?.map (fun n => (PV.int n, cs.drop ds.length))
+  | 's' :: cs =>
+    let hs := cs.takeWhile (fun c => c == '-' || (hexVal c).isSome)
+    (unhexStr (String.ofList hs)).map (fun s => (PV.str s, cs.drop hs.length))
+  | 'd' :: '(' :: cs => parseEntries cs []
+  | 'a' :: '(' :: cs => parseItems cs []
+  | _ => none
+partial def parseEntries : List Char → List (Str × PV) → Option (PV × List Char)
+  | ')' :: cs, acc => some (PV.dict acc.reverse, cs)
+  | ',' :: cs, acc => parseEntries cs acc
+  | cs, acc =>
+    let ks := cs.takeWhile (· != '=')
+    match cs.drop ks.length with
+    | '=' :: r =>
+      match unhexStr (String.ofList ks), parseVal r with
+      | some k, some (v, r') => parseEntries r' ((k, v) :: acc)
+      | _, _ => none
+    | _ => none
+partial def parseItems : List Char → List PV → Option (PV × List Char)
+  | ')' :: cs, acc => some (PV.arr acc.reverse, cs)
+  | ',' :: cs, acc => parseItems cs acc
+  | cs, acc =>
+    match parseVal cs with
+    | some (v, r') => parseItems r' (v :: acc)
+    | none => none
+end
+
+open PlistM in
+def parseValTok (t : String) : Option PV :=
+  match parseVal t.toList with
+  | some (v, []) => some v
+  | _ => none
+
+open PlistM in
+mutual
+partial def renderVal : PV → String
+  | .int n => "i" ++ toString n
+  | .str s => "s" ++ hexOfStr s
+  | .dict es => "d(" ++ ",".intercalate (es.map (fun e => hexOfStr e.1 ++ "=" ++ renderVal e.2)) ++ ")"
+  | .arr xs => "a(" ++ ",".intercalate (xs.map renderVal) ++ ")"
+end
+
+open PlistM in
+def runLib (t1 t2 : String) (obs : List String) : Verdict :=
+  match parseValTok t1, parseValTok t2 with
+  | some v1, some v2 =>
+    let eqM := pvEq v1 v2
+    let w1 := renderVal (sortRec v1)
+    let w2 := renderVal (sortRec v2)
+    let modelOut := "eq=" ++ (if eqM then "1" else "0") ++ " W1:" ++ w1 ++ " W2:" ++ w2
+    let implOut := match obs with
+      | [e, _, _, a, b] => e ++ " " ++ a ++ " " ++ b
+      | _ => " ".intercalate obs
+    let eqI := field "eq=" obs
+    let same := field "same=" obs
+    let lg := field "lg=" obs
+    -- the difference of two equal fonts lies only below arrays (where the sort does not reach)?
+    let onlyArrays := match field "W1:" obs, field "W2:" obs with
+      | some a, some b => match parseValTok a, parseValTok b with
+        | some x, some y => renderVal (stripArrays x) == renderVal (stripArrays y)
+        | _, _ => false
+      | _, _ => false
+    let spec : List String :=
+      (if eqI == some "1" && same != some "1" then
+         [if onlyArrays then "equal-fonts-save-differ:dict-inside-array" else "equal-fonts-save-differ"]
+       else []) ++
+      (if lg == some "1" then [] else ["layer-or-glyph-lib-order-differs"]) ++
+      (match obs with | "err" :: _ => ["save-failed"] | _ => [])
+    let hasArrDict := renderVal (stripArrays v1) != renderVal v1
+    let tags := ["lib", if eqM then "equal" else "unequal"] ++
+      (if w1 != renderVal v1 || w2 != renderVal v2 then ["reordered"] else []) ++
+      (if hasArrDict then ["has-array"] else []) ++
+      (if w1 != w2 && eqM then ["differs-below-array"] else []) ++
+      (if eqM && t1 != t2 then ["nt"] else [])
+    { agree := modelOut == implOut, spec := spec, tags := tags, model := modelOut }
+  | _, _ => { agree := false, model := "bad-input" }
+
+/-- keys of the files the `X` bit 2 puts into the data directory of the generated tree -/
+def diskDataKeys : List Str := ["z.txt", "a.txt", "sub/m.bin", "sub/deep/k.txt", "b.txt"].map String.toList
+
+def parseEditKeys (tok : String) : Option (List Str) :=
+  if !tok.startsWith "E:" then none
+  else (splitNonEmpty (tok.drop 2).toString ",").mapM (fun e =>
+    match e.splitOn "=" with
+    | [k, _] => unhexStr k
+    | _ => none)
+
+def hasAlias (ks : List (List Str)) : Bool :=
+  match ks with
+  | [] => false
+  | k :: r => r.contains k || hasAlias r
+
 def run (inp obs : List String) : Verdict :=
   match inp with
-  | [_, "det", fmtTok, gTok, kTok, lTok, fTok, oTok, bTok, _xTok] =>
+  | [_, "lib", t1, t2] => runLib t1 t2 obs
+  | [_, "det", fmtTok, gTok, kTok, lTok, fTok, oTok, bTok, xTok, eTok] =>
     match fmtTok.toNat?, parseGroups gTok, parseKerning kTok, parseSet "L:" lTok,
           parseOptStr "F" fTok, parseOrder oTok, parseBlocks bTok with
     | some fmt, some g?, some k?, some L, some cls, some ord, some blk =>
@@ -57,10 +160,15 @@ def run (inp obs : List String) : Verdict :=
       let d := field "d=" obs
       let t := field "t=" obs
       let srt := field "sorted=" obs
+      let xbits := ((xTok.drop 2).toString.toNat?).getD 0
+      let editKeys := (parseEditKeys eTok).getD []
+      let storeKeys := editKeys ++ (if (xbits / 2) % 2 == 1 then diskDataKeys else [])
+      let alias := !editKeys.isEmpty && hasAlias (storeKeys.map PlistM.normKey)
       let spec : List String :=
         (if d == some "1" then [] else ["load-nondeterministic"]) ++
         (match obs with
-         | "ok" :: _ => (if t == some "1" then [] else ["save-nondeterministic"]) ++
+         | "ok" :: _ => (if t == some "1" then []
+                         else [if alias then "save-nondeterministic:store-keys-alias" else "save-nondeterministic"]) ++
                         (if srt == some "1" then [] else ["written-plist-unsorted"])
          | "err" :: _ => []
          | _ => ["panic-or-unknown"])
@@ -82,7 +190,8 @@ def run (inp obs : List String) : Verdict :=
         "blocks" ++ toString (min nblocks 4)] ++
         (if suff then ["suffixed"] else []) ++ (if multi then ["multi-block-no-order"] else []) ++
         (if ord.isSome then ["featureorder"] else []) ++
-        (if suff || multi then ["nt"] else [])
+        (if !editKeys.isEmpty then ["store-inserts"] else []) ++ (if alias then ["store-alias"] else []) ++
+        (if suff || multi || alias then ["nt"] else [])
       { agree := modelOut == implOut, spec := spec, tags := tags, model := modelOut }
     | _, _, _, _, _, _, _ => { agree := false, model := "bad-input" }
   | _ => { agree := false, model := "bad-line" }
